@@ -66,7 +66,7 @@ def shards(tier, seed):
     for fmt in FORMATS:
         for part in range(4):
             out.append({"kind": "faults", "seed": seed, "shard": i, "fmt": fmt, "part": part,
-                        "n": 3 if tier == "quick" else 12})
+                        "n": 3 if tier == "quick" else 120})
             i += 1
     if tier == "thorough":
         out.append({"kind": "large", "seed": seed, "shard": i, "n": 1})
